@@ -1,6 +1,8 @@
 import PyYetiVerif.Props.C05
 import PyYetiVerif.Props.C05Gen
 import PyYetiVerif.Props.C05Struct
+import PyYetiVerif.Props.C05TwoPass
+import PyYetiVerif.Props.C05Dup
 #print axioms PyYetiVerif.C05.count_total
 #print axioms PyYetiVerif.C05.rows_total
 #print axioms PyYetiVerif.C05.cycle_values
@@ -38,3 +40,8 @@ import PyYetiVerif.Props.C05Struct
 #print axioms PyYetiVerif.C05.generated_c_rainflow1_eq_model
 #print axioms PyYetiVerif.C05.generated_c_rainflow2_eq_model
 #print axioms PyYetiVerif.C05.generated_c_eq_generated_py
+#print axioms PyYetiVerif.C05.generated_c_rainflow1_twopass_eq_model
+#print axioms PyYetiVerif.C05.generated_c_rainflow2_twopass_eq_model
+#print axioms PyYetiVerif.C05.generated_c_twopass_eq_fast
+#print axioms PyYetiVerif.C05.twopass_count_eq_length
+#print axioms PyYetiVerif.C05.duplicate_insertion_interior
